@@ -114,7 +114,7 @@ def build_stream(kind, dbx, rng, n_events):
         return packets, pool
     # claims: a known device, and one whose manufacturer / class / function codes are not in the lookup tables (its
     # identity has no names - the messages are just as deliverable)
-    events = hist.build_history(pool, rng, [1, 2, 3], n_events,
+    events = hist.build_history(pool, rng, [1, 2, 3, 4], n_events,          # (source 4 never claims an address)
                                 {s: [hist.claim_name(100 + s, 1851), hist.claim_name(200 + s, 1999, function=251, dev_class=119)] for s in (1, 2, 3)}, p_claim=0.07)
     for ev in events:
         packets.append(packetise(kind, ev, rng))
@@ -123,11 +123,21 @@ def build_stream(kind, dbx, rng, n_events):
     return packets, pool
 
 
-def expected_messages(kind, packets, settings):
+def expected_messages(kind, packets, settings, clock_jump_at=None):
+    """clock_jump_at: index of the packet from which on the decoder's clock is 11 minutes ahead (past the discovery window)."""
+    import contextlib
+    from ..lib import decoder_clock_box
+    with (decoder_clock_box() if clock_jump_at is not None else contextlib.nullcontext()) as box:
+        return _expected_messages(kind, packets, settings, clock_jump_at, box)
+
+
+def _expected_messages(kind, packets, settings, clock_jump_at, box):
     dec = NMEA2000Decoder(**settings)
     out = []
     undeliverable = 0
-    for p in packets:
+    for n_, p in enumerate(packets):
+        if clock_jump_at is not None and n_ == clock_jump_at:
+            box["offset"] = 660.0
         try:
             if kind == "ebyte":
                 m = dec.decode_tcp(p)
@@ -177,7 +187,7 @@ def _boundaries(packets):
         yield pos
 
 
-def run_one(kind, stream, cuts, idle_steps, settings, cb, split_at=None, resume_at=None, bystander=False, cb_style="method", register_at=None):
+def run_one(kind, stream, cuts, idle_steps, settings, cb, split_at=None, resume_at=None, bystander=False, cb_style="method", register_at=None, clock_jump=False):
     """split_at: byte offset (a packet boundary) at which the gateway drops the link; the rest of the stream arrives
     on the connection the client opens next."""
     async def scenario(sim):
@@ -203,6 +213,8 @@ def run_one(kind, stream, cuts, idle_steps, settings, cb, split_at=None, resume_
                     conn.feed(stream[pos:split_at])
                     pos = split_at
                 await asyncio.sleep(0.5)          # what was sent so far is read before the link goes
+                if clock_jump:
+                    sim.clock_box["offset"] = 660.0      # eleven minutes pass before the link drops: the client is no longer young
                 if kind == "waveshare":
                     conn.reset(simgw.serial_loss_exception())
                 else:
@@ -228,6 +240,13 @@ def run_one(kind, stream, cuts, idle_steps, settings, cb, split_at=None, resume_
                 await asyncio.sleep(0)
         await asyncio.sleep(5.0 + 0.03 * len(stream) / 13)     # let a slow callback (0.02 s per message) drain the queue
         await sim.call("close")
+    if clock_jump:
+        from ..lib import decoder_clock_box
+        with decoder_clock_box() as box:
+            async def scenario_c(sim):
+                sim.clock_box = box
+                await scenario(sim)
+            return simgw.run_session(kind, scenario_c, client_kwargs=settings, recv_cb=cb, bystander=bystander, cb_style=cb_style)
     return simgw.run_session(kind, scenario, client_kwargs=settings, recv_cb=cb, bystander=bystander, cb_style=cb_style)
 
 
@@ -322,10 +341,18 @@ def run_shard(spec, acc):
             split = bl[len(bl) // 2 + rng.randint(-3, 3)] if len(bl) > 8 else None
             if split is not None and split < len(stream):
                 cuts = sorted(rng.sample(range(1, len(stream)), min(20, len(stream) - 1)))
-                sim, stats = run_one(kind, stream, cuts, 1, settings, cb, split_at=split)
+                jump = bool(settings.get("build_network_map"))
+                want_c = want
+                if jump:
+                    # with network mapping the link drops when the client is eleven minutes old: a decoder of the same settings
+                    # and the same age returns the traffic of the source that never claimed from then on
+                    k_split = next(i_ for i_, e_ in enumerate(_boundaries(packets)) if e_ == split) + 1
+                    want_c, _ = expected_messages(kind, packets, settings, clock_jump_at=k_split)
+                    acc.count("reconnects_of_an_old_mapping_client")
+                sim, stats = run_one(kind, stream, cuts, 1, settings, cb, split_at=split, clock_jump=jump)
                 if sim is not None and len(sim.conns) >= 2:
                     acc.count("sessions_continued_on_second_connection")
-                    judge(sim, stats, want, acc, kind, "continued_after_reconnect", cuts, settings, cb, stream, undel, True)
+                    judge(sim, stats, want_c, acc, kind, "continued_after_reconnect", cuts, settings, cb, stream, undel, True)
                 else:
                     acc.count("second_connection_not_opened")
             # late registration of the receive callback, at a packet boundary in the middle of the stream (possibly inside
